@@ -55,8 +55,8 @@ func tokenClass(t gmars.VerifToken) string {
 			return "op:0"
 		case t.Val == "org":
 			return "pseudo:0"
-		case strings.HasPrefix(t.Val, "__for_"):
-			return "lbl:ren"
+		case strings.HasPrefix(t.Val, "__for_anon_"):
+			return "lbl:anon" // the counter name the expander gives a nested block that has none
 		default:
 			return "lbl:" + t.Val
 		}
